@@ -78,12 +78,12 @@ Section Api.
   Variable one : N -> res unit (option T).            (* collect_one_at *)
 
   (* Vec::with_capacity(n) panics with "capacity overflow" when n * size_of::<T>() > isize::MAX
-     (an allocation that large but representable is not modelled: the harness never asks for one) *)
+     (cannot happen for a vector whose len() * size_of::<T>() fits isize) *)
   Definition cap_overflows (n : N) : bool := isize_max <? n * esz.
 
-  (* readable.rs:277 collect_range_dyn: with_capacity(to.saturating_sub(from)) BEFORE any clamping *)
+  (* readable.rs:251 collect_range_dyn: with_capacity(to.min(self.len()).saturating_sub(from)), then read_into_at *)
   Definition collect_range_dyn (from to : N) : res unit (list T) :=
-    if cap_overflows (to - from) then Panic else rd from to.
+    if cap_overflows (N.min to vlen - from) then Panic else rd from to.
   (* readable.rs:259 collect_range_at = collect_range_dyn *)
   Definition collect_range_at := collect_range_dyn.
   (* readable.rs:286 collect *)
